@@ -66,9 +66,23 @@ def work(item):
     out = []
     tmp = tempfile.mkdtemp(prefix='bsev_c16_')
     aug_ok = [k for k in ('def2-svp', 'def2-tzvp', 'aug-cc-pvdz', 'cc-pvtz', '6-311g') if k in md]
+    # a generated data directory (other names, notes, families, auxiliaries than the store): what `-d` must be forwarded to
+    import gendir
+    gd = os.path.join(tmp, 'gd')
+    os.makedirs(gd)
+    gfiles, gindex, _ = gendir.gen_dir(rng, nbases=3)
+    gendir.write_dir(gd, gfiles, gindex)
+    try:
+        gmd = bse.get_metadata(gd)
+    except Exception:
+        gmd = None
+    md_store, names_store = md, names
     for i in range(n):
         kind = rng.choice(['get-basis'] * 6 + ['get-refs', 'get-refs', 'get-info', 'get-notes', 'get-family', 'get-family-notes', 'get-versions', 'lookup', 'list', 'list',
                                               'invalid', 'convert', 'aux', 'bundle'])
+        use_gd = bool(gmd) and kind in ('get-basis', 'get-refs', 'get-info', 'get-notes', 'get-family', 'get-family-notes', 'get-versions', 'lookup', 'list') and rng.random() < 0.3
+        dd = gd if use_gd else None
+        md, names = (gmd, sorted(gmd)) if use_gd else (md_store, names_store)
         key = rng.choice(names)
         e = md[key]
         disp = e['display_name']
@@ -76,7 +90,9 @@ def work(item):
         use_o = rng.random() < 0.25
         ofile = os.path.join(tmp, 'o%d.txt' % i)
         pre = ['-o', ofile] if use_o else []
-        if rng.random() < 0.2:
+        if use_gd:
+            pre = ['-d', gd] + pre
+        elif rng.random() < 0.2:
             pre = ['-d', bse.get_data_dir()] + pre
 
         def emitted(res):
@@ -86,7 +102,7 @@ def work(item):
             return k, so, se
         try:
             if kind == 'get-basis':
-                if rng.random() < 0.35 and aug_ok:
+                if rng.random() < 0.35 and aug_ok and not use_gd:
                     key = rng.choice(aug_ok)
                     e = md[key]
                     disp = e['display_name']
@@ -123,7 +139,7 @@ def work(item):
                     argv += ['--elements', s]
                     kw['elements'] = s
                 line = pre + ['get-basis', spell(rng, disp), rng.choice([fmt, fmt.upper()])] + argv
-                want = api_call(bse.get_basis, disp, fmt=fmt, **kw)
+                want = api_call(bse.get_basis, disp, fmt=fmt, data_dir=dd, **kw)
                 got = emitted(run_cli(line))
             elif kind == 'get-refs':
                 rf = rng.choice(['txt', 'bib', 'ris', 'endnote', 'json'])
@@ -139,7 +155,7 @@ def work(item):
                     argv += ['--elements', ','.join(sel)]
                     kw['elements'] = ','.join(sel)
                 line = pre + ['get-refs', spell(rng, disp), rng.choice([rf, rf.upper()])] + argv
-                want = api_call(bse.get_references, disp, fmt=rf, **kw)
+                want = api_call(bse.get_references, disp, fmt=rf, data_dir=dd, **kw)
                 got = emitted(run_cli(line))
             elif kind == 'get-info':
                 line = pre + ['get-info', spell(rng, disp)]
@@ -159,16 +175,16 @@ def work(item):
                 continue
             elif kind == 'get-notes':
                 line = pre + ['get-notes', spell(rng, disp)]
-                want = api_call(bse.get_basis_notes, disp)
+                want = api_call(bse.get_basis_notes, disp, dd)
                 got = emitted(run_cli(line))
             elif kind == 'get-family':
                 line = pre + ['get-family', spell(rng, disp)]
-                want = api_call(bse.get_basis_family, disp)
+                want = api_call(bse.get_basis_family, disp, dd)
                 got = emitted(run_cli(line))
             elif kind == 'get-family-notes':
-                fam = rng.choice(bse.get_families())
+                fam = rng.choice(bse.get_families(dd))
                 line = pre + ['get-family-notes', rng.choice([fam, fam.upper()])]
-                want = api_call(bse.get_family_notes, fam)
+                want = api_call(bse.get_family_notes, fam, dd)
                 got = emitted(run_cli(line))
             elif kind == 'get-versions':
                 line = pre + ['get-versions', spell(rng, disp), '-n']
@@ -176,10 +192,14 @@ def work(item):
                 got = emitted(run_cli(line))
             elif kind == 'lookup':
                 prim = [k for k, x in md.items() if x['auxiliaries']]
+                if not prim:
+                    use_gd, dd, md, names = False, None, md_store, names_store
+                    pre = [x for x in pre if x not in ('-d', gd)]
+                    prim = [k for k, x in md.items() if x['auxiliaries']]
                 key = rng.choice(prim)
                 role = rng.choice(sorted(md[key]['auxiliaries']))
                 line = pre + ['lookup-by-role', spell(rng, md[key]['display_name']), rng.choice([role, role.upper()])]
-                want = api_call(bse.lookup_basis_by_role, key, role)
+                want = api_call(bse.lookup_basis_by_role, key, role, dd)
                 if want[0] == 'ok':
                     want = ('ok', '\n'.join(want[1]))
                 got = emitted(run_cli(line))
@@ -189,24 +209,24 @@ def work(item):
                     kw = {}
                     argv = ['-n']
                     if rng.random() < 0.5:
-                        kw['family'] = rng.choice(bse.get_families())
+                        kw['family'] = rng.choice(bse.get_families(dd))
                         argv += ['-f', rng.choice([kw['family'], kw['family'].upper()])]
                     if rng.random() < 0.4:
                         kw['role'] = rng.choice(sorted(bse.get_roles()))
                         argv += ['-r', kw['role']]
                     if rng.random() < 0.4:
-                        kw['substr'] = rng.choice(['aug', 'def2', 'PVDZ', '6-31'])
+                        kw['substr'] = rng.choice(['aug', 'def2', 'PVDZ', '6-31', 'gen', 'EN'])
                         argv += ['-s', kw['substr']]
                     if rng.random() < 0.4:
                         kw['elements'] = rng.choice(['H,C', '1-10', 'Og', 'cn-OG', '26'])
                         argv += ['-e', kw['elements']]
                     line = pre + [which] + argv
-                    want = api_call(bse.filter_basis_sets, **kw)
+                    want = api_call(bse.filter_basis_sets, data_dir=dd, **kw)
                     if want[0] == 'ok':
                         want = ('ok', '\n'.join(x['display_name'] for x in want[1].values()))
                 else:
                     line = pre + [which, '-n'] if which != 'list-families' else pre + [which]
-                    src = dict(**{'list-families': lambda: bse.get_families(), 'list-formats': lambda: sorted(bse.get_formats().keys()),
+                    src = dict(**{'list-families': lambda: bse.get_families(dd), 'list-formats': lambda: sorted(bse.get_formats().keys()),
                                   'list-writer-formats': lambda: sorted(bse.get_writer_formats().keys()), 'list-reader-formats': lambda: list(bse.get_reader_formats().keys()),
                                   'list-ref-formats': lambda: list(bse.get_reference_formats().keys()), 'list-roles': lambda: list(bse.get_roles().keys())})[which]
                     want = ('ok', '\n'.join(src()))
